@@ -598,24 +598,39 @@ fn line_dump(dwarf: &gimli::Dwarf<Rd<'static>>, unit: Option<&gimli::Unit<Rd<'st
         }
     }
     dirs.extend(h.include_directories().iter().map(|d| s(d.clone())));
-    let files: Vec<J> = h
-        .file_names()
-        .iter()
-        .map(|f| {
-            json!({"dir": f.directory(h).map(|d| s(d)).unwrap_or(json!([])), "name": s(f.path_name()),
-                   "ts": b8(f.timestamp()), "size": b8(f.size()), "md5": bytes_json(f.md5()),
-                   "src": f.source().map(|x| s(x)).unwrap_or(json!([]))})
-        })
-        .collect();
-    let hdr = json!({"present":true,"dirs":dirs,"files":files,"ver":h.version(),
-                     "mil":h.minimum_instruction_length(),"maxops":h.maximum_operations_per_instruction(),
-                     "lbase":h.line_base(),"lrange":h.line_range()});
+    let files_of = |h: &gimli::LineProgramHeader<Rd<'static>>| -> Vec<J> {
+        h.file_names()
+            .iter()
+            .map(|f| {
+                json!({"dir": f.directory(h).map(|d| s(d)).unwrap_or(json!([])), "name": s(f.path_name()),
+                       "ts": b8(f.timestamp()), "size": b8(f.size()), "md5": bytes_json(f.md5()),
+                       "src": f.source().map(|x| s(x)).unwrap_or(json!([]))})
+            })
+            .collect()
+    };
+    // the file table AFTER the program has run (DW_LNE_define_file adds entries)
+    let mut files = files_of(h);
+    // names of the decoded instructions (diagnostics only; capped)
+    let mut ins: Vec<J> = Vec::new();
+    {
+        let mut it = h.instructions();
+        while let Ok(Some(i)) = it.next_instruction(h) {
+            if ins.len() >= 48 {
+                break;
+            }
+            let d = format!("{:?}", i);
+            ins.push(json!(d.split(|c: char| c == '(' || c == ' ' || c == '{').next().unwrap_or("")));
+        }
+    }
     let mut seqs = Vec::new();
     let mut cur: Vec<J> = Vec::new();
     let mut rows = program.clone().rows();
     loop {
         match rows.next_row() {
             Ok(Some((hh, r))) => {
+                if hh.file_names().len() != files.len() {
+                    files = files_of(hh);
+                }
                 cur.push(row_json(dwarf, unit, hh, r));
                 if r.end_sequence() {
                     seqs.push(json!({"present":true,"rows":std::mem::take(&mut cur),"err":""}));
@@ -633,6 +648,9 @@ fn line_dump(dwarf: &gimli::Dwarf<Rd<'static>>, unit: Option<&gimli::Unit<Rd<'st
             }
         }
     }
+    let hdr = json!({"present":true,"dirs":dirs,"files":files,"ver":h.version(),
+                     "mil":h.minimum_instruction_length(),"maxops":h.maximum_operations_per_instruction(),
+                     "lbase":h.line_base(),"lrange":h.line_range(),"ins":ins});
     (hdr, seqs)
 }
 
@@ -643,7 +661,7 @@ fn absent_entry() -> J {
     json!({"present":false,"depth":-1,"tag":0,"attrs":[]})
 }
 fn absent_line_hdr() -> J {
-    json!({"present":false,"dirs":[],"files":[],"ver":0,"mil":0,"maxops":0,"lbase":0,"lrange":0})
+    json!({"present":false,"dirs":[],"files":[],"ver":0,"mil":0,"maxops":0,"lbase":0,"lrange":0,"ins":[]})
 }
 fn absent_seq() -> J {
     json!({"present":false,"rows":[],"err":""})
@@ -936,6 +954,7 @@ fn run_dwarf(base: &str, api: &str, secs: Secs, endian: RunTimeEndian, seed: u64
             ev["ev"] = json!("ConvLineSeq");
             ev["unit"] = json!(ui);
             ev["seq"] = json!(si);
+            ev["ins"] = a.map(|u| u.line_hdr["ins"].clone()).unwrap_or(json!([]));
             ev["again"] = again.clone();
             let (x, y, z) = pick3(a.and_then(|u| u.seqs.get(si)), b.and_then(|u| u.seqs.get(si)), c3.and_then(|u| u.seqs.get(si)), &absent_seq);
             ev["min"] = x;
@@ -1036,6 +1055,7 @@ fn run_line(base: &str, secs: Secs, endian: RunTimeEndian, asz: u8, by_sequence:
             Err(e) => (h1.clone(), q1.clone(), json!({"ok":false,"stage":"read","err":e})),
         },
     };
+    let ins0 = h0["ins"].clone();
     let mut ev = tag();
     ev["ev"] = json!("ConvLineHeader");
     ev["unit"] = json!(0);
@@ -1051,6 +1071,7 @@ fn run_line(base: &str, secs: Secs, endian: RunTimeEndian, asz: u8, by_sequence:
         ev["unit"] = json!(0);
         ev["seq"] = json!(i);
         ev["again"] = again.clone();
+        ev["ins"] = ins0.clone();
         ev["min"] = s0.get(i).cloned().unwrap_or_else(absent_seq);
         ev["mout"] = q1.get(i).cloned().unwrap_or_else(absent_seq);
         ev["mout2"] = q2.get(i).cloned().unwrap_or_else(absent_seq);
